@@ -58,10 +58,22 @@ def cases(tier, seed):
         for mask in G.COMPONENT_MASKS:
             for zmask in (0, 1, 2):
                 out.append({"key": f"hessmask/k={k}/{G.mask_name(mask)}/z={zmask}", "grp": "hess", "k": k, "mask": zmask if k > 1 else 0, "zc": None, "kind": "quat", "row": 0, "cmask": mask})
+    # graded sub-diagonals: non-zero entries far below the diagonal scale (2^-29, 2^-40, 2^-55 relative) must still be annihilated
+    for k in range(1, K + 1):
+        for e in (29, 40, 55):
+            for which in list(range(k)) + ["all"]:
+                for kind in ("posreal", "quat"):
+                    out.append({"key": f"hess-graded/k={k}/e={e}/at={which}/{kind}", "grp": "hess", "k": k, "mask": 0, "zc": None, "kind": kind, "row": 0, "sube": e, "subat": which})
     for solver in ("Utriangle", "upper", "lower"):
         for n in (2, 3, 4):
             for pat in ("rev_identity", "first_col_zero", "leading_zero_rows", "trailing_zero_rows", "single_entry"):
                 out.append({"key": f"solve/{solver}/n={n}/rhs={pat}", "grp": "solve", "solver": solver, "n": n, "nrhs": n, "sc": "1", "single": None, "rhs": pat})
+    # special diagonals: moduli exactly one (signed units, Hurwitz units, -1), all ones, one/unit mixtures, equal moduli with different phases
+    for solver in ("Utriangle", "upper", "lower"):
+        for n in range(1, 5):
+            for nrhs in (1, 3):
+                for dk in ("units", "hurwitz", "ones", "minus_ones", "mixed_one_unit", "equalmod2", "unit_times_pow2"):
+                    out.append({"key": f"solve/{solver}/n={n}/nrhs={nrhs}/diag={dk}", "grp": "solve", "solver": solver, "n": n, "nrhs": nrhs, "sc": "1", "single": None, "diag": dk})
     scales = ["2^-20", "1e-6", "1", "1e6", "2^20"]
     for solver in ("Utriangle", "upper", "lower", "Utriangle_via_tq"):
         if solver == "Utriangle_via_tq":
@@ -154,6 +166,14 @@ def run_case(case, seed):
                 H[j + 1, j] = 0.0
         if case["zc"] is not None:
             H[:, case["zc"]] = 0.0
+        if case.get("sube"):
+            for j in range(k):
+                if case["subat"] == "all" or case["subat"] == j:
+                    if not H[j + 1, j].any():
+                        H[j + 1, j, 2] = 1.0
+                    H[j + 1, j] = np.ldexp(H[j + 1, j], -case["sube"])
+                if not H[j, j].any():
+                    H[j, j, 1] = 1.0
         if case.get("cmask"):
             Hm = fill.quat_int(m, k, -3, 3).astype(float)
             Hm[Hm == 0] = 2.0
@@ -216,6 +236,19 @@ def run_case(case, seed):
         else:
             T[i, :i] = 0.0
         T[i, i] = G.SIGNED_UNITS[(i * 3 + n) % 8].astype(float) * 2.0 + np.array([0, 0.5, 0, 0.25])  # modulus ~2: well conditioned
+    dk = case.get("diag")
+    if dk:
+        hur = [np.array(v, float) / 2 for v in itertools.product((1, -1), repeat=4)]
+        for i in range(n):
+            T[i, i] = {
+                "units": G.SIGNED_UNITS[(2 * i + 3) % 8].astype(float),
+                "hurwitz": hur[(5 * i + n) % 16],
+                "ones": np.array([1.0, 0, 0, 0]),
+                "minus_ones": np.array([-1.0, 0, 0, 0]),
+                "mixed_one_unit": np.array([1.0, 0, 0, 0]) if i % 2 == 0 else G.SIGNED_UNITS[(2 * i + 1) % 8].astype(float),
+                "equalmod2": G.SIGNED_UNITS[(3 * i + 2) % 8].astype(float) * 2.0,
+                "unit_times_pow2": hur[(3 * i + 1) % 16] * 2.0 ** (i - 1),
+            }[dk]
     B = fill.quat(n, nrhs, bits=3, lo=-16, hi=16)
     pat = case.get("rhs")
     if pat == "rev_identity":
